@@ -10,6 +10,7 @@ import (
 	"fmt"
 	"os"
 	"path/filepath"
+	"runtime/debug"
 	"sort"
 	"strings"
 	"time"
@@ -169,6 +170,9 @@ func runCheck(id, tier string, w *World, loadErr error, t0 time.Time) int {
 		func() {
 			defer func() {
 				if r := recover(); r != nil {
+					if os.Getenv("NFS_TRACE") != "" {
+						fmt.Fprintf(os.Stderr, "%s\n", debug.Stack())
+					}
 					cx.undecided("engine", "panic", fmt.Sprintf("analyser panic: %v", r), "")
 				}
 			}()
